@@ -240,9 +240,9 @@ func mcVariants() []mcVariant {
 		{name: "detached-gws+L", cfg: L, liveness: true, set: merge(detached, map[string]string{"SrcKinds": "<- KindsEnd"})},
 		// a start buffered behind a refused duplicate start (8c78f49 closes but the run loop reads on):
 		// with FixLate (registration refused once `closed`) everything ends; without it - the tree as it is -
-		// TLC reproduces the OPEN finding start-after-close
+		// TLC reproduces the finding start-after-close (repaired in /repo since)
 		{name: "late-start-detached+L", cfg: L, liveness: true, set: merge(detached, twoIds, lateStart)},
-		{name: "open-late-start-detached+L", cfg: L, liveness: true, expect: "Temporal property EndsAll was violated",
+		{name: "old-late-start-detached+L", cfg: L, liveness: true, expect: "Temporal property EndsAll was violated",
 			set: merge(detached, twoIds, lateStart, map[string]string{"FixLate": "FALSE", "INVARIANTS": "TypeOK Refines", "PROPERTIES": "EndsAll"})},
 		// the pinned tree: TLC must reproduce the known findings
 		{name: "pinned-dup-start", cfg: "MC_WsImpl_pinned.cfg", expect: "Invariant Refines is violated", set: map[string]string{}},
@@ -790,8 +790,9 @@ func specialScenarios(thorough bool) []*Scenario {
 			&Scenario{ID: "silent-client-init-timeout-" + p, Mode: "special", Cfg: Cfg{Proto: p, InitFn: "accept", InitTimeout: 80}, End: "abort", Steps: []Step{
 				{Op: "sleep", Ms: 400, Sync: true}}},
 		)
-		// the restart hammer, bounded by rounds AND by time (quick: 20 rounds or 3 s; thorough: 150 or 30 s)
-		nh, rounds, msec := 1, 20, 3000
+		// the restart hammer, bounded by rounds AND by time (quick: 150 rounds or 3 s, whichever comes
+		// first - a round takes ~10 ms; thorough: 4 sessions of 150 rounds or 30 s)
+		nh, rounds, msec := 1, 150, 3000
 		if thorough {
 			nh, rounds, msec = 4, 150, 30000
 		}
@@ -807,7 +808,7 @@ func specialScenarios(thorough bool) []*Scenario {
 
 func slowRank(sc *Scenario) int {
 	if strings.HasPrefix(sc.ID, "dup-refused-buffered-start-detached") {
-		return 3 // the open finding: two absence waits
+		return 3
 	}
 	if len(sc.Steps) > 0 && sc.Steps[0].M == "initbad" {
 		return 3
@@ -1475,6 +1476,11 @@ func classify(c *vlib.Check, r rejection) (string, string) {
 		}
 	case "Stall":
 		key = "absent:" + r.line.M
+	case "CEnd":
+		if r.line.K == 4409 {
+			key = "spurious-4409:restart-refused-after-completion"
+			base += "\nthe server closed with 4409 (subscriber already exists) although the client had read the termination of every earlier operation of the id before it started the id again"
+		}
 	case "Panic":
 		base += "\nthe recover hook ran although no Source was scripted to panic: " + r.line.M
 	}
